@@ -21,7 +21,8 @@ Definition verdict_of (r : res (heap * val)) : verdict :=
   | Ok (h, v) => Allowed h v
   | Err (EPriv m p) => Denied m p
   | Err ENotFoundSym | Err ENotFoundPkg | Err ENotFoundHash => NotFound
-  | Err ENotRec | Err ENotPkg | Err ENotFun => NotRecord
+  | Err ENotRec | Err ENotPkg => NotRecord
+  | Err ENotFun => NotCallable
   | Err EInternal | Err ECrash | Err EFuel => Malformed
   end.
 
